@@ -368,6 +368,7 @@ func hasDirectBytes(c *rtl.Combinator) bool {
 func sectionCodecs(bs []*binding) {
 	extra := N(40, 1500)
 	bigDone := 0
+	vecDone := 0
 	for _, b := range bs {
 		for _, c := range b.ctors {
 			// (a) every subset of the mode bits this line consults x every boundary length
@@ -423,6 +424,32 @@ func sectionCodecs(bs []*binding) {
 				rng := K.Rng("codec-rand/"+c.Name, k)
 				o := S.RandomObject(rng, c, &rtl.GenOpts{Ctor: c.Name})
 				checkValue(b, o, fmt.Sprintf("codec-rand/%s/%d", c.Name, k))
+			}
+			// (d) vectors with counts around and beyond 1024 items (the count is a full 32-bit field)
+			hasVec := false
+			for _, f := range c.Fields {
+				if f.Type.Kind == rtl.KVector {
+					hasVec = true
+				}
+			}
+			if hasVec && (vecDone < N(3, 1000)) {
+				vecDone++
+				for li, L := range []int{1023, 1024, 1025, 1500, 4096} {
+					if !K.Thorough() && li%2 == 1 && vecDone > 1 {
+						continue
+					}
+					rng := K.Rng("codec-longvec/"+c.Name, li)
+					o := S.RandomObject(rng, c, &rtl.GenOpts{Ctor: c.Name,
+						VecLen: func(r rtl.Rand, depth int) int {
+							if depth <= 1 {
+								return L
+							}
+							return r.Intn(2)
+						},
+						BytesLen: func(r rtl.Rand) int { return r.Intn(6) }})
+					checkValue(b, o, fmt.Sprintf("codec-longvec/%s/%d", c.Name, L))
+					K.Seen("long_vector_counts", fmt.Sprint(L))
+				}
 			}
 			// (c) lengths around 2^16 (and 2^24-1 in thorough) for a few lines with a plain bytes field
 			if hasDirectBytes(c) && bigDone < N(3, 8) {
